@@ -52,7 +52,7 @@ theorem parseDfa_builds (text : List Char) (D : DFA String String) (h : Parse.pa
 
 /-- non-vacuity: an accepted text without `states` / `input_symbols` declarations … -/
 example : Parse.parseDfa "initial p\nfinal q\np q a b\nq q a\nq p b".toList =
-    .ok { Q := ["p", "q"], Sigma := ["a", "b"], q0 := "p", F := ["q"],
+    .ok { Q := ["q", "p"], Sigma := ["a", "b"], q0 := "p", F := ["q"],
           delta := [(("p", "a"), "q"), (("p", "b"), "q"), (("q", "a"), "q"), (("q", "b"), "p")] } := by rfl
 /-- … and one with both -/
 example : Parse.parseDfa "states q p r\ninput_symbols b a\ninitial p\nfinal q\np q a b\nq q a\nq p b\nr r a b".toList =
